@@ -29,6 +29,10 @@ type Tunnel struct {
 	// User
 	User identity.Identity
 
+	// pending holds bytes received from the client that do not make up a
+	// complete packet yet
+	pending []byte
+
 	// rwc is the underlying connection to the remote desktop server.
 	// It is of the type *net.TCPConn
 	rwc net.Conn
@@ -58,7 +62,7 @@ func (t *Tunnel) Write(pkt []byte) {
 // packet, with the header removed, and the packet size. It updates the
 // statistics for bytes received
 func (t *Tunnel) Read() (pt int, size int, pkt []byte, err error) {
-	pt, size, pkt, err = readMessage(t.transportIn)
+	pt, size, pkt, err = readMessage(t.transportIn, &t.pending)
 	t.BytesReceived += int64(size)
 	t.LastSeen = time.Now()
 
